@@ -1,6 +1,7 @@
 package main
 
 import (
+	"crypto/aes"
 	"encoding/binary"
 	"fmt"
 	"math/rand"
@@ -34,6 +35,7 @@ type simDev struct {
 type histProfile struct {
 	name                                       string
 	wUplink, wCorrupt, wJoin, wSubmit, wReplay int
+	wCrash                                     int // frames whose handling is cut short / hit by failing operations, then redelivered
 	maxDevs, minEv, maxEv                      int
 	shareAddr                                  int // 1 in n histories has devices sharing an address
 	confirmedOnly                              bool
@@ -144,6 +146,100 @@ func (h *histRunner) rx(raw []byte, tag string) {
 	h.events = append(h.events, fmt.Sprintf("R,%s,%x,%d,%s,%d,%d,%d,%s,%x", hx(raw), gw, h.ts, datr, rssi, ch, clock, appnonce, newaddr))
 	h.obs = append(h.obs, "D["+strings.Join(dl, ";")+"] P["+strings.Join(pl, ";")+"] "+h.dumpAll())
 	h.tags[tag]++
+}
+
+// one rx event cut short: the handlers run operation by operation; operation number crashAt is
+// never executed (the process dies there and a fresh server reopens the database); operations in
+// fails return an injected error. crashAt < 0: no crash, failures only.
+func (h *histRunner) rxCrash(raw []byte, crashAt int, fails []int, tag string) {
+	h.ts += 1000
+	gw := h.gws[h.rng.Intn(len(h.gws))]
+	datr := datrs[h.rng.Intn(len(datrs))]
+	rssi := int32(-h.rng.Intn(130))
+	ch := uint8(h.rng.Intn(8))
+	clock := h.rng.Uint32()
+	pkt := server.GatewayPacket{
+		RawMessage: append([]byte{}, raw...),
+		Radio:      server.RadioContext{Channel: ch, RFChain: 0, Frequency: 868.1, DataRate: datr, Band: eu868, RSSI: rssi, SNR: 7.5},
+		Gateway:    server.GatewayContext{GatewayEUI: eui64(gw), GatewayHost: "127.0.0.1", GatewayPort: 1700, GatewayClock: clock, ProtocolVersion: 2},
+		ReceivedAt: time.Unix(0, 1600000000000000000+h.ts),
+	}
+	fm := map[int]bool{}
+	var fs []string
+	for _, i := range fails {
+		fm[i] = true
+		fs = append(fs, fmt.Sprint(i))
+	}
+	trace, status := h.w.runStepped(pkt, crashAt, fm)
+	if status == "HUNG" {
+		h.obs = append(h.obs, "HUNG")
+		h.events = append(h.events, fmt.Sprintf("X,%s,%x,%d,%s,%d,%d,%d,,0,%d,%s", hx(raw), gw, h.ts, datr, rssi, ch, clock, crashAt, strings.Join(fs, "+")))
+		return
+	}
+	if crashAt < 0 {
+		h.w.quiesce()
+	} else {
+		time.Sleep(3 * time.Millisecond) // let what was already handed on settle before the process "dies"
+	}
+	downs, _, _ := h.w.collect()
+	appnonce, newaddr := "", uint32(0)
+	var dl []string
+	for _, d := range downs {
+		dl = append(dl, fmt.Sprintf("%s:%d:%x:%d", hx(d.RawMessage), d.Radio.RX1Delay, uint64(d.Gateway.GatewayEUI.ToInt64()), d.Gateway.GatewayClock))
+	}
+	// the random AppNonce / fresh address the join handler chose: from the emitted accept if there is one,
+	// otherwise from the stored session (keys are derived from it; the model needs it as input)
+	if raw[0]>>5 == 0 && len(raw) == 23 {
+		var de protocol.EUI
+		for i := 0; i < 8; i++ {
+			de.Octets[i] = raw[16-i]
+		}
+		for _, sd := range h.devs {
+			if sd.eui != de {
+				continue
+			}
+			for _, d := range downs {
+				if len(d.RawMessage) == 17 && d.RawMessage[0]>>5 == 1 {
+					dec := aesEnc(sd.appkey, d.RawMessage[1:])
+					appnonce = hx(dec[0:3])
+					newaddr = binary.LittleEndian.Uint32(dec[6:10])
+					if ok, a, _, _, nk, ak := refOnJoinAccept(sd.appkey, sd.lastNonce, d.RawMessage); ok {
+						sd.addr, sd.nwk, sd.app, sd.fcnt, sd.joined = a, nk, ak, 0, true
+					}
+				}
+			}
+			if appnonce == "" {
+				appnonce, newaddr = h.recoverAppNonce(sd)
+			}
+		}
+	}
+	sort.Strings(dl)
+	if crashAt >= 0 {
+		h.w.restart()
+		for _, a := range h.apps {
+			h.w.watchApp(a)
+		}
+	}
+	h.events = append(h.events, fmt.Sprintf("X,%s,%x,%d,%s,%d,%d,%d,%s,%x,%d,%s", hx(raw), gw, h.ts, datr, rssi, ch, clock, appnonce, newaddr, crashAt, strings.Join(fs, "+")))
+	h.obs = append(h.obs, "D["+strings.Join(dl, ";")+"] P[] "+h.dumpAll()+" ; trace{"+strings.Join(trace, ",")+"}")
+	h.tags[tag]++
+}
+
+// the AppNonce the join handler drew, recovered from the session keys it stored (search over the
+// 2^24 values is too slow; the handler stores keys only after UpdateDevice, so try the stored row)
+func (h *histRunner) recoverAppNonce(sd *simDev) (string, uint32) {
+	dev, err := h.w.store.GetDeviceByEUI(sd.eui)
+	if err != nil {
+		return "", 0
+	}
+	if dev.NwkSKey.Empty() || string(dev.NwkSKey.Key[:]) == string(sd.nwk) {
+		return "", dev.DevAddr.ToUint32()
+	}
+	// NwkSKey = aes(appkey, 01 | appnonce | netid | devnonce | pad): decrypt to read the nonce back
+	blk, _ := aes.NewCipher(sd.appkey)
+	out := make([]byte, 16)
+	blk.Decrypt(out, dev.NwkSKey.Key[:])
+	return hx(out[1:4]), dev.DevAddr.ToUint32()
 }
 
 func (h *histRunner) submit(d *simDev, port uint8, ack bool, data []byte) {
@@ -271,12 +367,46 @@ func runHistory(rng *rand.Rand, prof histProfile, w *Writer, suite string) {
 	h.events = append(h.events, "I")
 	h.obs = append(h.obs, "I "+h.dumpAll())
 	nev := prof.minEv + rng.Intn(prof.maxEv-prof.minEv+1)
-	total := prof.wUplink + prof.wCorrupt + prof.wJoin + prof.wSubmit + prof.wReplay
+	total := prof.wUplink + prof.wCorrupt + prof.wJoin + prof.wSubmit + prof.wReplay + prof.wCrash
 	for e := 0; e < nev; e++ {
 		di := rng.Intn(len(h.devs))
 		d := h.devs[di]
 		r := rng.Intn(total)
 		switch {
+		case r >= total-prof.wCrash:
+			var f []byte
+			tag := "crash.uplink"
+			if !d.joined || (d.otaa && rng.Intn(3) == 0) {
+				nonce := uint16(rng.Intn(65536))
+				f = refJoinRequest(d.appkey, d.appeui, d.eui, nonce)
+				d.lastNonce = nonce
+				d.usedNonces = append(d.usedNonces, nonce)
+				tag = "crash.join"
+			} else {
+				fcnt := d.fcnt
+				if rng.Intn(4) == 0 {
+					fcnt += uint16(1 + rng.Intn(3))
+				}
+				f = h.validUplink(d, rng.Intn(2) == 0, rng.Intn(3) == 0, fcnt, 1+rng.Intn(200), randBytes(rng, rng.Intn(20)), nil)
+				h.lastValid[di] = f
+				d.fcnt = fcnt + 1
+			}
+			k := rng.Intn(17)
+			if rng.Intn(5) == 0 {
+				k = -1
+				tag += ".faults-only"
+			}
+			var fails []int
+			if k < 0 || rng.Intn(2) == 0 {
+				for j := 0; j < 1+rng.Intn(2); j++ {
+					fails = append(fails, rng.Intn(15))
+				}
+			}
+			h.rxCrash(f, k, fails, tag)
+			h.rx(f, "redelivery")
+			if rng.Intn(2) == 0 {
+				h.rx(f, "redelivery")
+			}
 		case r < prof.wUplink || (r < prof.wUplink+prof.wCorrupt && true):
 			isCorrupt := r >= prof.wUplink
 			if !d.joined {
@@ -417,6 +547,7 @@ var profiles = map[string]histProfile{
 	"C06": {maxSubmit: 59, name: "C06", wUplink: 8, wCorrupt: 2, wJoin: 1, wSubmit: 6, wReplay: 1, maxDevs: 4, minEv: 10, maxEv: 30, shareAddr: 6},
 	"C07": {badDatr: true, name: "C07", wUplink: 8, wCorrupt: 1, wJoin: 2, wSubmit: 3, wReplay: 1, maxDevs: 2, minEv: 10, maxEv: 30, confirmedOnly: true},
 	"C08": {maxSubmit: 59, name: "C08", wUplink: 9, wCorrupt: 1, wJoin: 0, wSubmit: 5, wReplay: 1, maxDevs: 3, minEv: 12, maxEv: 30},
+	"C10": {maxSubmit: 40, name: "C10", wUplink: 5, wCorrupt: 0, wJoin: 1, wSubmit: 3, wReplay: 2, wCrash: 6, maxDevs: 1, minEv: 8, maxEv: 20},
 	"C09": {name: "C09", wUplink: 8, wCorrupt: 2, wJoin: 1, wSubmit: 3, wReplay: 3, maxDevs: 2, minEv: 10, maxEv: 30},
 }
 
@@ -433,7 +564,7 @@ func histSuite(name string, quickN, thoroughN int) suiteFunc {
 }
 
 func init() {
-	for _, n := range []string{"C01", "C02", "C03", "C04", "C05", "C06", "C07", "C08", "C09"} {
+	for _, n := range []string{"C01", "C02", "C03", "C04", "C05", "C06", "C07", "C08", "C09", "C10"} {
 		suites[n] = histSuite(n, 120, 2500)
 	}
 }
